@@ -156,3 +156,190 @@ def generate(path, first_tid, ntraces, seed, nvars_choices, steps):
             tr = random_history(first_tid + i, s, nv, steps)
             f.write(tr.dumps() + '\n')
             tr.release_all()
+
+
+# ======================= C07: reorder-heavy histories =======================
+def build_tt(tr, names, tt):
+    """Build the function with truth table `tt` over `names` by Shannon
+    expansion with ite on variables (unrecorded helper calls are avoided:
+    every call goes through the recorder)."""
+    b = tr.bdd
+    n = len(names)
+    full = (1 << (1 << n)) - 1
+
+    def cof(t, k, val):
+        out = 0
+        for a in range(1 << n):
+            bb = (a | (1 << k)) if val else (a & ~(1 << k))
+            if (t >> bb) & 1:
+                out |= 1 << a
+        return out
+
+    def rec(k, t):
+        if t == full:
+            return 1
+        if t == 0:
+            return -1
+        if k >= n:
+            raise AssertionError
+        t0, t1 = cof(t, k, False), cof(t, k, True)
+        if t0 == t1:
+            return rec(k + 1, t)
+        lo, hi = rec(k + 1, t0), rec(k + 1, t1)
+        v = b.var(names[k])
+        return b.ite(v, hi, lo)
+    return rec(0, tt)
+
+
+def reorder_history(tid, seed, nvars, steps, order=None, held_n=None):
+    import itertools
+    rng = random.Random(seed)
+    names = ALL_NAMES[:nvars]
+    tr = Trace(tid, names, seed=seed,
+               meta=dict(driver='reorder_history', seed=seed))
+    start = list(order) if order else rng.sample(names, nvars)
+    for nm in start:
+        tr.add_var(nm)
+    b = tr.bdd
+    # hold a few random functions (built unrecorded, then announced by incref)
+    k = held_n if held_n is not None else rng.randint(1, 6)
+    full = 1 << (1 << nvars)
+    for _ in range(k):
+        tt = rng.randrange(full)
+        tr.build(tt, lambda: build_tt(tr, names, tt), nvars)
+    tr.gc()
+    for _ in range(steps):
+        c = rng.random()
+        keys = tr.cache_keys()
+        if nvars < 2:
+            c = 0.99 if c > 0.5 else 0.75
+        if c < 0.35:
+            x = rng.randrange(nvars - 1)
+            if rng.random() < 0.5:
+                tr.swap(x, x + 1)
+            else:
+                inv = {l: v for v, l in b.vars.items()}
+                p = [inv[x], inv[x + 1]]
+                rng.shuffle(p)
+                tr.swap(*p)
+            if rng.random() < 0.3:     # twice = identity on functions
+                tr.swap(x, x + 1)
+        elif c < 0.55:
+            o = list(names)
+            rng.shuffle(o)
+            tr.reorder_to(o)
+        elif c < 0.70:
+            xs = rng.sample(names, 2 * rng.randint(1, nvars // 2))
+            tr.pairs({xs[i]: xs[i + 1] for i in range(0, len(xs), 2)})
+        elif c < 0.85:
+            tr.gc()
+            tr.sift()
+            if rng.random() < 0.3:
+                tr.sift()
+        elif c < 0.92:
+            held = tr.held()
+            u, v = pick_ref(tr, rng), pick_ref(tr, rng)
+            tr.apply(rng.choice(BIN_OPS), u, v)
+        elif c < 0.97:
+            held = tr.held()
+            if len(held) > 1:
+                tr.decref(rng.choice(held))
+        else:
+            tt = rng.randrange(full)
+            tr.build(tt, lambda: build_tt(tr, names, tt), nvars)
+        if keys and tr.events[-1]['op'] in CLEARING:
+            tr.cache_witness(keys, k=2)
+    return tr
+
+
+def allfun_reorder_trace(tid, seed, n, order):
+    """Everything held: all functions of n variables, then every adjacent
+    swap, every target permutation, every pairing, sifting."""
+    import itertools
+    from harness.drivers import sweep
+    rng = random.Random(seed)
+    af = sweep.AllFunctions(n, order)
+    tr = Trace(tid, af.names, bdd=af.bdd, seed=seed, ext=af.ext,
+               meta=dict(driver='allfun_reorder', order=order))
+    names = af.names
+    for x in range(n - 1):
+        tr.swap(x, x + 1)
+        tr.swap(x, x + 1)
+    perms = list(itertools.permutations(names))
+    rng.shuffle(perms)
+    for p in perms[:6 if n == 3 else 8]:
+        tr.reorder_to(list(p))
+    for x, y in itertools.combinations(names, 2):
+        tr.pairs({x: y})
+    if n >= 4:
+        tr.pairs({names[0]: names[2], names[1]: names[3]})
+    tr.sift()
+    tr.sift()
+    tr.release_all()
+    return tr
+
+
+# ======================= C14: declarations =======================
+def decl_history(tid, seed, steps):
+    rng = random.Random(seed)
+    names = ALL_NAMES[:6]
+    tr = Trace(tid, names, seed=seed, views=True,
+               meta=dict(driver='decl_history', seed=seed))
+    b = tr.bdd
+    for _ in range(steps):
+        declared = sorted(b.vars)
+        held = tr.held()
+        c = rng.random()
+        if not declared:
+            c = 0.0
+        if c < 0.16:
+            nm = rng.choice(names)
+            k = rng.random()
+            if k < 0.55:
+                tr.add_var(nm)                    # new: next level; old: idempotent
+            elif k < 0.7 and nm in b.vars:
+                tr.add_var(nm, b.vars[nm])        # same level: idempotent
+            elif k < 0.85:
+                if nm in b.vars:                  # conflicting level for an existing name
+                    lv = rng.choice([l for l in range(len(b.vars) + 1) if l != b.vars[nm]])
+                    tr.add_var(nm, lv, expect_ok=False)
+                elif b.vars:                      # used level for a new name
+                    tr.add_var(nm, rng.randrange(len(b.vars)), expect_ok=False)
+                else:
+                    tr.add_var(nm, 0)
+            else:
+                if nm not in b.vars:
+                    tr.add_var(nm, len(b.vars))   # explicit next free level
+                else:
+                    tr.add_var(nm)
+        elif c < 0.30:
+            tr.var(rng.choice(declared))
+        elif c < 0.45 and held:
+            tr.apply(rng.choice(BIN_OPS), pick_ref(tr, rng), pick_ref(tr, rng))
+        elif c < 0.58 and held:
+            tr.decref(rng.choice(held))
+        elif c < 0.68:
+            tr.gc()
+        elif c < 0.76 and len(declared) >= 2:
+            x = rng.randrange(len(declared) - 1)
+            tr.swap(x, x + 1)
+        elif c < 0.80 and len(declared) >= 2:
+            tr.gc()
+            tr.sift()
+        else:
+            used = {b._succ[n][0] for n in b._succ if n != 1}
+            inv = {l: v for v, l in b.vars.items()}
+            unused = [v for v, l in b.vars.items() if l not in used]
+            usedv = [v for v, l in b.vars.items() if l in used]
+            k = rng.random()
+            if k < 0.25:
+                tr.undeclare()                    # all unused
+            elif k < 0.6 and unused:
+                tr.undeclare(*rng.sample(unused, rng.randint(1, len(unused))))
+            elif k < 0.8 and usedv:
+                sub = [rng.choice(usedv)] + rng.sample(unused, rng.randint(0, len(unused)))
+                rng.shuffle(sub)
+                tr.undeclare(*sub, expect_ok=False)   # a used variable: refused
+            else:
+                tr.undeclare('zz_unknown', expect_ok=False)
+    return tr
